@@ -20,7 +20,23 @@ void gen_async_ops(Rng &g, run::Plan &p, int nops, bool ha, int neps) {
 	for (int i = 0; i < 11; i++) if (faults & (1 << i)) ws.push_back({fk[i], c14 && i >= 5 && i <= 7 ? fw[i] * 2 : fw[i]});
 	int total = 0;
 	for (auto &w : ws) total += w.w;
+	// a share of the plans works with reply PDUs around the largest legal size and cuts in their first / last bytes
+	bool big = g.chance(1, c14 ? 5 : 25);
 	for (int n = 0; n < nops; n++) {
+		if (big && g.chance(1, 6)) {
+			// one padded round trip: request, padded reply, a cut near one end of the PDU, the rest later
+			p.ops.push_back({"ADD", {(int64_t)g.below(9), (int64_t)g.below(50)}});
+			p.ops.push_back({"RUN", {}});
+			for (int e = 0; e < neps; e++) p.ops.push_back({"SRVREAD", {e}});
+			for (int i = 0; i < neps; i++) p.ops.push_back({"REPLY", {(int64_t)g.below(8), 0, (int64_t)g.below(1 << 30), (int64_t)g.range(1, 7)}});
+			for (int e = 0; e < neps; e++) p.ops.push_back({"DELIVER", {(int64_t)e, g.pickl<int64_t>({-1, -2, -3, -4, 1, 2, 3, 4, 65535, 65536, 0, 0})}});
+			p.ops.push_back({"RUN", {}});
+			for (int e = 0; e < neps; e++) p.ops.push_back({"DELIVER", {(int64_t)e, 0}});
+			p.ops.push_back({"RUN", {}});
+			p.ops.push_back({"RUN", {}});
+			n += 6;
+			continue;
+		}
 		// occasionally a whole honest round trip, so that most runs make real progress between faults
 		if (g.chance(1, 12)) {
 			int k = (int)g.range(1, 3);
@@ -41,10 +57,11 @@ void gen_async_ops(Rng &g, run::Plan &p, int nops, bool ha, int neps) {
 		if (kind == "ADD") op.a = {(int64_t)g.below(9), (int64_t)g.below(50)};
 		else if (kind == "READD" || kind == "FREE") op.a = {(int64_t)g.below(8)};
 		else if (kind == "SRVREAD") op.a = {(int64_t)g.below(neps)};
-		else if (kind == "REPLY") op.a = {(int64_t)g.below(8), adv && g.chance(2, 5) ? (int64_t)g.below(ref::B__COUNT) : 0, (int64_t)g.below(1 << 30)};
+		else if (kind == "REPLY") op.a = {(int64_t)g.below(8), adv && g.chance(2, 5) ? (int64_t)g.below(ref::B__COUNT) : 0, (int64_t)g.below(1 << 30), big && g.chance(1, 2) ? (int64_t)g.range(1, 7) : 0};
 		else if (kind == "DELIVER") {
 			int64_t n2 = 0;
 			switch (g.below(8)) { case 0: case 1: case 2: case 3: n2 = 0; break; case 4: n2 = (int64_t)g.range(1, 4); break; case 5: n2 = (int64_t)g.range(5, 60); break; case 6: n2 = (int64_t)g.range(61, 600); break; default: n2 = (int64_t)g.pickl<int64_t>({65535, 65537, 65538, 65539, 65540, 131077}); }
+			if (big && g.chance(1, 3)) n2 = g.pickl<int64_t>({-1, -2, -3, -4, 1, 2, 3, 65535, 65536});
 			op.a = {(int64_t)g.below(8), n2};
 		}
 		else if (kind == "TICK") op.a = {g.pickl<int64_t>({100, 300, 700, 1000, 1000, 1500, 2500, 5000, 11000})};
